@@ -14,6 +14,7 @@ import (
 	"os"
 	"strings"
 	"testing"
+	"time"
 
 	oe "github.com/ossrs/go-oryx-lib/errors"
 	"github.com/ossrs/go-oryx-lib/flv"
@@ -210,15 +211,27 @@ func rtmpReadFaults(s Session, segs [][]int) (cnt counts, err error) {
 			}
 		}
 		// (2) an injected error at every read call index
-		for j := 0; ; j++ {
-			sent := xport.NewSentinel(j, fmt.Sprintf("injected read fault %d", j))
+		for jj := 0; ; jj++ {
+			// every read call index, with the error kinds in rotation and, separately, as a deadline error
+			j, kind := jj/2, jj/2
+			if jj%2 == 1 {
+				kind = 5
+				if j%6 == 5 {
+					continue
+				}
+			}
+			sent := xport.NewSentinel(kind, fmt.Sprintf("injected read fault %d", j))
 			er := &xport.ErrReader{R: bytes.NewReader(wire), FailAt: j, AfterBytes: -1, Err: sent}
 			var r io.Reader = er
 			if seg != nil {
 				r = &xport.SegReader{R: er, Sched: seg}
 			}
 			p := rtmp.NewProtocol(xport.RW{Reader: r, Writer: io.Discard})
-			got, e := readUntilError(p, len(msgs))
+			var got []*rtmp.Message
+			var e error
+			if te := ev.WithTimeout(30*time.Second, func() error { got, e = readUntilError(p, len(msgs)); return nil }); te != nil {
+				return cnt, fmt.Errorf("stream of %d bytes, read call %d fails with %T (seg %v): the operation in progress does not return an error: %v", len(wire), j, sent, seg, te)
+			}
 			if !er.Failed {
 				break // j is beyond the number of read calls of this session
 			}
@@ -812,7 +825,14 @@ func TestRtmpWriteFaults(t *testing.T) {
 		s.Ref = false
 		if rapid.IntRange(0, 5).Draw(t, "bigmsg") == 0 {
 			// one message larger than the writer's 4096-byte buffer: several transport writes per message
-			s.Msgs = append(s.Msgs, M{Type: 9, Sid: 1, Ts: 77, Len: rapid.SampledFrom([]int{4097, 5000, 9000}).Draw(t, "biglen"), Fill: 5})
+			if rapid.Bool().Draw(t, "bigchunk") {
+				// ... in chunks larger than that buffer as well
+				s.Msgs = append(s.Msgs, M{Scs: rapid.SampledFrom([]uint32{4097, 8192, 9000, 60000}).Draw(t, "bigscs")})
+			}
+			s.Msgs = append(s.Msgs, M{Type: 9, Sid: 1, Ts: 77, Len: rapid.SampledFrom([]int{4097, 5000, 9000, 8200, 20000}).Draw(t, "biglen"), Fill: 5})
+			if rapid.Bool().Draw(t, "bigtail") {
+				s.Msgs = append(s.Msgs, M{Type: 8, Sid: 1, Ts: 78, Len: 10, Fill: 6})
+			}
 		}
 		var cnt counts
 		err := ev.Try(func() error {
@@ -872,13 +892,16 @@ func TestFlvFaults(t *testing.T) {
 }
 
 var recErr = ev.New(prop, "errors-nesting",
-	"rapid-generated nestings (depth<=12) of Wrap, Wrapf, WithMessage, WithStack over a root in {io.EOF, io.ErrUnexpectedEOF, errors.New, errors.Errorf, a foreign error type, nil}; after every layer: Cause()==root (identity), "+
+	"rapid-generated nestings (depth<=12, occasionally 33..400) of Wrap, Wrapf, WithMessage, WithStack over a root in {io.EOF, io.ErrUnexpectedEOF, errors.New, errors.Errorf, a foreign error type, nil}; after every layer: Cause()==root (identity), "+
 		"Error()/%v/%s == outer-to-inner messages joined by ': ' + root text, nil stays nil; non-trivial = depth>=2").Require("deep", "nil-root")
 
 func TestErrorsNesting(t *testing.T) {
 	ev.Rapid(t, "errors-nesting", 5000, 3000000, func(t *rapid.T) {
 		c := ECase{Root: rapid.SampledFrom([]string{"eof", "unexpected", "new", "errorf", "std", "nil", "wrapper", "wrapper-nil", "operror"}).Draw(t, "root"), Text: rapid.StringMatching(`[ -~]{0,12}`).Draw(t, "text")}
 		n := rapid.IntRange(1, 12).Draw(t, "depth")
+		if rapid.IntRange(0, 40).Draw(t, "verydeep") == 0 {
+			n = rapid.SampledFrom([]int{33, 64, 65, 127, 128, 129, 130, 257, 400}).Draw(t, "deepn")
+		}
 		for i := 0; i < n; i++ {
 			c.Ops = append(c.Ops, EOp{Op: rapid.SampledFrom([]string{"wrap", "wrapf", "msg", "stack"}).Draw(t, "op"), Msg: rapid.StringMatching(`[ -~]{0,10}`).Draw(t, "msg")})
 		}
